@@ -289,11 +289,13 @@ def write_replay(prop, seed, n, obj):
 
 
 def write_evidence(prop, tier, seed, coverage, assumptions, wall, violations, level="proof"):
-    os.makedirs(os.path.join(VERIF, "evidence"), exist_ok=True)
+    # runs against a scratch tree (VERIF_REPO set) keep their evidence beside their build
+    evdir = os.path.join(VERIF, "evidence") if REPO == "/repo" else os.path.join(BUILD, "evidence")
+    os.makedirs(evdir, exist_ok=True)
     ev = {"property_id": prop, "tier": tier, "seed": int(seed), "level": level,
           "coverage": coverage, "assumptions": assumptions, "wall_s": round(wall, 2),
           "violations": int(violations)}
-    p = os.path.join(VERIF, "evidence", prop + ".json")
+    p = os.path.join(evdir, prop + ".json")
     json.dump(ev, open(p, "w"), indent=1, sort_keys=True)
     return p
 
